@@ -158,6 +158,8 @@ DoBase(sc, st0, a) ==
          [] a = "panic-str"     -> Panic(st, "other")
          [] a = "panic-int"     -> Panic(st, "other")
          [] a = "panic-nilerr"  -> Panic(st, "other")       \* a nil *Error is not an error value
+         \* an error value whose Error method panics (typed nil pointer, broken implementation): any other panic
+         [] a \in {"panic-typednil", "panic-errpanics"} -> Panic(st, "other")
          [] a = "panic-nil"     -> Panic(st, "other")       \* panic(nil), whether or not recover() reports it as nil
          [] OTHER               -> Panic(st, "unknown-step")
 
